@@ -88,6 +88,20 @@ type schedResult struct {
 	Final    map[string]string `json:"final,omitempty"`
 	Cfg      *l2cfg            `json:"cfg,omitempty"`
 	Evs      []schedEv         `json:"evs,omitempty"`
+	GI       *gcIntrTrace      `json:"gi,omitempty"`
+}
+
+type gcIntrTrace struct {
+	Cfg    l2cfg  `json:"cfg"`
+	Pre    []l2op `json:"pre"`
+	A      int    `json:"a"`
+	B      int    `json:"b"`
+	Merge  bool   `json:"merge"`
+	Skip   int    `json:"skip"`
+	Op     l2op   `json:"op"`
+	Parked bool   `json:"parked"`
+	GC     l2op   `json:"gc"`
+	Post   []l2op `json:"post"`
 }
 
 type schedEv struct {
@@ -165,23 +179,40 @@ func init() {
 
 		// ---- S1: a client write lands between GC's re-read of the slot and its repoint (C05) ----
 		if which == "all" || which == "repoint" {
-			for _, variant := range []string{"set@repoint", "delete@repoint", "set@copied", "delete@copied", "none@repoint"} {
+			for _, variant := range []string{"set@repoint", "delete@repoint", "set@copied", "delete@copied", "none@repoint", "set@collide", "delete@collide"} {
 				run := schedStore(root, n, 512, 1<<20)
+				collide := variant[len(variant)-7:] == "collide"
+				if collide { // K and Q share one key hash: K is served from the collision table
+					run.forced["K"] = 0x1234567890abcdef
+					run.forced["Q"] = 0x1234567890abcdef
+				}
 				if err := run.open(); err != nil {
 					return err
 				}
 				run.do("S", "X", "x1")
 				run.do("S", "K", "k1") // file 0: [X1 K1]
-				run.do("S", "X", "x2")
-				run.do("S", "A", "a1") // file 1: [X2 A1]
+				if collide {
+					run.do("S", "Q", "q1")
+					run.do("S", "A", "a1") // file 1: [Q1 A1]
+				} else {
+					run.do("S", "X", "x2")
+					run.do("S", "A", "a1") // file 1: [X2 A1]
+				}
 				run.do("S", "B", "b1") // file 2 (head)
 				run.hs.VerifFlush()
 				obs := map[string]string{}
-				point := "gc.repoint.mid" // between GC's re-read of the slot and its repoint
-				if variant[len(variant)-6:] == "copied" {
-					point = "gc.appended" // after the copy of K1 (first relocated record), before the repoint
+				if collide {
+					obs["get_before_gc"] = resOf(run.do("G", "K", "")) // detects the collision: both keys enter the table
 				}
-				rule := pk.arm(point, 0)
+				point := "gc.repoint.mid" // between GC's re-read of the slot and its repoint
+				if variant[len(variant)-6:] == "copied" || collide {
+					point = "gc.appended" // after the copy of K1 (first relocated record), before the repoint / hint update
+				}
+				skip := 0
+				if collide {
+					skip = 1 // X1 is copied first; park after the copy of K1
+				}
+				rule := pk.arm(point, skip)
 				done := make(chan struct{})
 				go func() {
 					run.hs.VerifGC(0, 0, 1, false)
@@ -559,6 +590,129 @@ func init() {
 				run.hs.Close()
 				os.RemoveAll(run.home)
 				out.Emit(schedResult{I: n, Scenario: "splitread", Variant: fmt.Sprintf("keys=%d ops=%d", len(keys), nops), Cfg: &run.cfg, Evs: evs})
+				n++
+			}
+		}
+		// ---- S6: a random client write overtakes a GC pass right after the copy of the n-th relocated
+		// record (C05); the whole history is replayed on the model with the split GC step ----
+		if which == "all" || which == "gcintr" {
+			for rep := 0; rep < count; rep++ {
+				rng := NewRng(seed*911 + uint64(rep))
+				run := schedStore(root, n, []int64{512, 1024}[rng.Intn(2)], []int64{3, 8, 1 << 20}[rng.Intn(3)])
+				keys := []string{"k0", "k1", "k2", "k3", "k4", "k5", "k6", "k7", "k8"}[:4+rng.Intn(6)]
+				collide := rng.Chance(4)
+				if collide { // two keys share a key hash: they are served from the collision table once detected
+					run.forced[keys[0]] = 0x0234567890abcdef
+					run.forced[keys[1]] = 0x0234567890abcdef
+					run.cfg.Forced = [][2]string{{hx(keys[0]), "158846962688052719"}, {hx(keys[1]), "158846962688052719"}}
+				}
+				if err := run.open(); err != nil {
+					return err
+				}
+				tr := gcIntrTrace{Cfg: run.cfg}
+				tsn := uint32(time.Now().Unix() - 40*86400)
+				npre := 8 + rng.Intn(24)
+				for j := 0; j < npre; j++ {
+					k := keys[rng.Intn(len(keys))]
+					var o l2op
+					switch q := rng.Intn(10); {
+					case q < 7:
+						tsn++
+						o = l2op{Op: "S", K: hx(k), V: hx(fmt.Sprintf("v%d-", j) + string(bytesRepeat('a'+byte(j%26), rng.Intn(300)))), TS: tsn}
+					case q < 8:
+						o = l2op{Op: "D", K: hx(k)}
+					case q < 9:
+						o = l2op{Op: "G", K: hx(k)}
+					default:
+						o = l2op{Op: "F"}
+					}
+					run.exec(&o)
+					tr.Pre = append(tr.Pre, o)
+				}
+				o := l2op{Op: "F"}
+				run.exec(&o)
+				tr.Pre = append(tr.Pre, o)
+				if collide {
+					for _, k := range keys[:2] {
+						o := l2op{Op: "G", K: hx(k)}
+						run.exec(&o)
+						tr.Pre = append(tr.Pre, o)
+					}
+				}
+				head := run.hs.VerifHead(0)
+				if head < 1 {
+					run.hs.Close()
+					os.RemoveAll(run.home)
+					continue
+				}
+				if rng.Chance(2) {
+					tr.A, tr.B = 0, head-1
+				} else {
+					tr.A = rng.Intn(head)
+					tr.B = tr.A + rng.Intn(head-tr.A)
+				}
+				tr.Merge = rng.Chance(3)
+				tr.Skip = rng.Intn(3)
+				ck := keys[rng.Intn(len(keys))]
+				if rng.Chance(3) {
+					tr.Op = l2op{Op: "D", K: hx(ck)}
+				} else {
+					tsn++
+					tr.Op = l2op{Op: "S", K: hx(ck), V: hx("during-gc-" + string(bytesRepeat('z', rng.Intn(200)))), TS: tsn}
+				}
+				rule := pk.arm("gc.appended", tr.Skip)
+				done := make(chan l2op, 1)
+				go func() {
+					g := l2op{Op: "C", A: tr.A, B: tr.B, Merge: tr.Merge}
+					run.exec(&g)
+					done <- g
+				}()
+				select {
+				case <-rule.arrived:
+					tr.Parked = true
+					cdone := make(chan struct{})
+					go func() {
+						run.exec(&tr.Op)
+						close(cdone)
+					}()
+					select {
+					case <-cdone:
+					case <-time.After(2 * time.Second):
+						return fmt.Errorf("gcintr: client blocked while GC is parked after a copy")
+					}
+					close(rule.release)
+					tr.GC = <-done
+				case g := <-done: // fewer relocations than the skip count: the client runs after the pass
+					pk.mu.Lock()
+					delete(pk.rules, "gc.appended")
+					pk.mu.Unlock()
+					tr.GC = g
+					run.exec(&tr.Op)
+				case <-time.After(20 * time.Second):
+					return fmt.Errorf("gcintr: GC neither parked nor finished")
+				}
+				tr.GC.Dir = nil
+				for _, k := range keys {
+					for _, op := range []string{"G", "M"} {
+						o := l2op{Op: op, K: hx(k)}
+						run.exec(&o)
+						tr.Post = append(tr.Post, o)
+					}
+				}
+				o = l2op{Op: "R"}
+				run.exec(&o)
+				tr.Post = append(tr.Post, o)
+				if o.Res == "OK" {
+					for _, k := range keys {
+						o := l2op{Op: "G", K: hx(k)}
+						run.exec(&o)
+						tr.Post = append(tr.Post, o)
+					}
+					run.hs.VerifWaitIdle()
+					run.hs.Close()
+				}
+				os.RemoveAll(run.home)
+				out.Emit(schedResult{I: n, Scenario: "gcintr", Variant: fmt.Sprintf("keys=%d pre=%d range=%d-%d skip=%d collide=%v", len(keys), npre, tr.A, tr.B, tr.Skip, collide), GI: &tr})
 				n++
 			}
 		}
